@@ -66,7 +66,13 @@ RUNS = [
     {"sort": [{"key": "shost", "desc": True}], "limit": 0, "skip": 0},
     {"sort": [{"key": "id", "desc": False}], "limit": 2, "skip": 62},
     {"sort": [{"key": "cbytes", "desc": False}], "limit": 64, "skip": 0},
+    # ID restriction (what the tagging job and tag prefetching use)
+    {"sort": [{"key": "id", "desc": False}], "limit": 0, "skip": 0, "ids": [0, 1, 2, 3, 5, 8, 13, 21, 34, 55]},
+    {"sort": [{"key": "ftime", "desc": True}], "limit": 4, "skip": 2, "ids": list(range(10, 40))},
+    {"sort": [], "limit": 3, "skip": 0, "ids": [7, 8, 9, 40, 41, 63]},
 ]
+for _r in RUNS:
+    _r.setdefault("ids", [])
 
 
 def shape(ast):
